@@ -219,6 +219,8 @@ pub fn analyze_for_optimization(
     //Parse the file into a the ast
     let source_unit = solang_parser::parse(file_contents, file_number).unwrap().0;
 
+    #[cfg(solstat_verif)]
+    crate::verif_shim::yield_point("analyze_for: parsed");
     let locations = match optimization {
         Optimization::AddressBalance => address_balance_optimization(source_unit),
         Optimization::AddressZero => address_zero_optimization(source_unit),
@@ -245,6 +247,8 @@ pub fn analyze_for_optimization(
         Optimization::ShortRevertString => short_revert_string_optimization(source_unit),
     };
 
+    #[cfg(solstat_verif)]
+    crate::verif_shim::yield_point("analyze_for: detected");
     for loc in locations {
         line_numbers.insert(utils::get_line_number(loc.start(), file_contents));
     }
